@@ -221,6 +221,15 @@ func TestC01RoundTrip(t *testing.T) {
 			vals = gen.FillResource(t, res, ts, "v")
 		}
 
+		// IDs are any strings, the empty one included.
+		for _, rel := range ts.Rels {
+			if ids, ok := vals[rel.FromName].([]string); ok && rapid.IntRange(0, 7).Draw(t, "emptyid") == 0 {
+				ids = append(append([]string{}, ids...), "")
+				vals[rel.FromName] = ids
+				res.Set(rel.FromName, append([]string{}, ids...))
+			}
+		}
+
 		// A to-many relationship may list an ID twice; C01 compares sets.
 		for _, rel := range ts.Rels {
 			if ids, ok := vals[rel.FromName].([]string); ok && len(ids) > 0 && rapid.IntRange(0, 5).Draw(t, "dup") == 0 {
